@@ -102,3 +102,42 @@ def leaf_native(P, ks, a):
             fail('compiled leaf range end differs from the model', ctx, keys, arg, got, exp)
     if b._p_state != st0:
         fail('the leaf is left in another persistence state (pin not released)', ctx, st0, b._p_state)
+
+
+def leaf_set_native(P, ks, a):
+    """replay of an E2 _bucket_set counterexample through the compiled Bucket's public API"""
+    from engine import shapes
+    fam, n, op = P['family'], P['n'], P['op']
+    cl = shapes.classes(fam, 'c')
+    keys = [a['k%d' % i] for i in range(n)]
+    vals = [a['w%d' % i] for i in range(n)]
+    b = cl['Bucket']()
+    b.__setstate__((tuple(x for k, v in zip(keys, vals) for x in (k, v)),))
+    model = dict(zip(keys, vals))
+    ctx = {'harness': 'leaf_set_native', 'family': fam, 'op': op}
+    b._p_changed = False
+    st0 = b._p_state
+    try:
+        if op == 'set':
+            b[a['n']] = a['v']
+            model[a['n']] = a['v']
+        elif op == 'insert':
+            b.setdefault(a['n'], a['v'])
+            model.setdefault(a['n'], a['v'])
+        else:
+            try:
+                del b[a['n']]
+                ok = True
+            except KeyError:
+                ok = False
+            if ok != (a['n'] in model):
+                fail('compiled leaf delete: KeyError iff the key is absent is violated', ctx)
+            model.pop(a['n'], None)
+    except Exception as e:      # noqa
+        fail('compiled leaf %s raised %s on representable data' % (op, type(e).__name__), ctx)
+    got = list(b.items())
+    if got != sorted(model.items()):
+        fail('compiled leaf contents differ from the sorted-map model after %s' % op, ctx, got, sorted(model.items()))
+    changed = sorted(model.items()) != sorted(zip(keys, vals))
+    if bool(b._p_changed) != changed and b._p_jar is not None:
+        fail('change notification differs from "modified"', ctx)
